@@ -5,8 +5,8 @@ cd /verif
 [ -n "$(git -C /repo status --short)" ] && { echo "/repo is not clean"; exit 2; }
 fail=0
 for d in /verif/seeded/*/; do
-  id=$(basename $d); prop=${id%%-*}
-  [ -n "${1:-}" ] && [ "$1" != "$prop" ] && continue
+  id=$(basename $d); prop=${id:0:3}
+  [ -n "${1:-}" ] && [ "$1" != "$prop" ] && [ "$1" != "$id" ] && continue
   patch=${d}patch.diff
   der=$(ls ${d}derived_patch_*.diff 2>/dev/null | head -1)
   [ -n "$der" ] && patch=$der
